@@ -17,6 +17,9 @@ req i P fmt hex|- J|!|-       -> i none | i ok J cN | i err code cN    (through 
 jp i P                        -> i J(array of tokens)                   (repe::parse_json_pointer)
 jpe i J P                     -> i some J | i none                      (repe::eval_json_pointer)
 enum i dom len                -> i a b hash   (one line per 2-op prefix; digest of the subtree)
+rep i N op…                   -> i digest last obs            (the same call N times in a row)
+watch i iters S op… M op… W op… => V w… V w…
+                              -> i admissible | i NOT-admissible (a watcher's answers walk through the successive states)
 conc i iters S op… T op… T op… => R res… R res… F J J J
                               -> i member | i NOT-member   (is the observed outcome produced by some
                                  interleaving of the lock-region steps of the model?)
@@ -71,6 +74,28 @@ def dumpSorted (reg : Reg) : String :=
   reg.root.show ++ " " ++ (funcsJ reg).show ++ " " ++ sortedLog reg
 
 def obs (reg : Reg) (r : Res) : String := showRes r ++ " c" ++ toString reg.log.length
+
+/-- Harness convention: a callable registered with `fail = 4000000` owns a value whose `Drop` panics when the
+registry lets go of it inside an API call, i.e. when its registration is replaced.  The replacement takes effect
+(the model's state), what the call answers is not specified by the property. -/
+def replacesBomb (reg : Reg) : Op → Bool
+  | .regFunc path _ =>
+    match parseRegistrationPath path with
+    | .ok segs =>
+      match fget (canonicalPointer segs) reg.funcs with
+      | some f => segs ≠ [] && f.fail == some 4000000
+      | none => false
+    | .error _ => false
+  | _ => false
+
+/-- one API call: new registry and its observation -/
+def applyObs (reg : Reg) (op : Op) : Reg × String :=
+  let (reg', r) := reg.apply recheck op
+  (reg', if replacesBomb reg op then "unspecified c" ++ toString reg'.log.length else obs reg' r)
+
+def applyWord (reg : Reg) (op : Op) : Reg × String :=
+  let (reg', r) := reg.apply recheck op
+  (reg', if replacesBomb reg op then "unspecified" else resWord r)
 
 /-- Parse one API op from `name :: args`; returns the op and the unconsumed words. -/
 def parseOp : List String → Option (Op × List String)
@@ -248,6 +273,68 @@ def concCheck (ws : List String) : Option Bool := do
   let reg0 := setup.foldl (fun reg op => (reg.apply recheck op).1) ({} : Reg)
   pure (search final ⟨reg0, []⟩ ths.toArray {}).1
 
+/-! ### observers beside one mutator -/
+
+def parseWatchers (fuel : Nat) (ws : List String) (acc : List Op) : Option (List Op × List String) :=
+  match fuel with
+  | 0 => none
+  | fuel + 1 =>
+    match ws with
+    | "W" :: rest =>
+      match parseOp rest with
+      | some (op, rest') => parseWatchers fuel rest' (op :: acc)
+      | none => none
+    | _ => some (acc.reverse, ws)
+
+def splitV (ws : List String) : List (List String) :=
+  (ws.foldl (fun (acc : List (List String)) w =>
+    if w = "V" then [] :: acc
+    else match acc with
+      | cur :: rest => (w :: cur) :: rest
+      | [] => []) []).reverse.map List.reverse
+
+/-- greedy walk: every answer must be the watcher's answer in some state not earlier than the previous one -/
+def admissibleSeq (states : List String) (seen : List String) : Bool :=
+  (seen.foldl (fun (acc : Option Nat) w =>
+    match acc with
+    | none => none
+    | some j => ((List.range states.length).find? fun k => j ≤ k && states[k]! == w)) (some 0)).isSome
+
+def watchCheck (ws : List String) : Option Bool := do
+  let ws ← match ws with
+    | "S" :: r => some r
+    | _ => none
+  let rec takeOps (fuel : Nat) (ws : List String) (acc : List Op) : Option (List Op × List String) :=
+    match fuel with
+    | 0 => none
+    | fuel + 1 =>
+      match ws with
+      | [] => some (acc.reverse, [])
+      | "M" :: _ => some (acc.reverse, ws)
+      | "W" :: _ => some (acc.reverse, ws)
+      | "=>" :: _ => some (acc.reverse, ws)
+      | _ =>
+        match parseOp ws with
+        | some (op, rest) => takeOps fuel rest (op :: acc)
+        | none => none
+  let (setup, rest) ← takeOps (ws.length + 1) ws []
+  let rest ← match rest with
+    | "M" :: r => some r
+    | _ => none
+  let (mutator, rest) ← takeOps (rest.length + 1) rest []
+  let (watchers, rest) ← parseWatchers (rest.length + 1) rest []
+  let rest ← match rest with
+    | "=>" :: r => some r
+    | _ => none
+  let seen := splitV rest
+  if seen.length ≠ watchers.length then none
+  let reg0 := setup.foldl (fun reg op => (reg.apply recheck op).1) ({} : Reg)
+  -- the registry before, between and after the mutator's calls
+  let regs := (mutator.foldl (fun (acc : List Reg × Reg) op =>
+    let reg' := (acc.2.apply recheck op).1
+    (acc.1 ++ [reg'], reg')) ([reg0], reg0)).1
+  pure ((watchers.zip seen).all fun (w, s) => admissibleSeq (regs.map fun reg => (applyWord reg w).2) s)
+
 /-! ### one line -/
 
 def codeOf (e : RErr) : Nat := (e.code Gen.Registry.registryErrorCode Gen.Registry.errorCodes).getD 0
@@ -302,6 +389,19 @@ def step (st : St) (ws : List String) : St × String :=
     match domain dom, len.toNat? with
     | some d, some n => if n < 2 then (st, idx ++ " bad-op") else (st, "\n".intercalate (enumLines idx d n))
     | _, _ => (st, idx ++ " bad-op")
+  | "rep" :: idx :: n :: rest =>
+    match n.toNat?, parseOp rest with
+    | some n, some (op, []) =>
+      let (reg', h, last) := (List.range n).foldl (fun (acc : Reg × UInt64 × String) _ =>
+        let (reg', o) := applyObs acc.1 op
+        (reg', fnv acc.2.1 o, o)) (st.reg, 0xcbf29ce484222325, "")
+      ({ st with reg := reg' }, joinSp [idx, toString h.toNat, "last", last])
+    | _, _ => (st, idx ++ " bad-op")
+  | "watch" :: idx :: _iters :: rest =>
+    match watchCheck rest with
+    | some true => (st, idx ++ " admissible")
+    | some false => (st, idx ++ " NOT-admissible")
+    | none => (st, idx ++ " bad-op")
   | "conc" :: idx :: _iters :: rest =>
     match concCheck rest with
     | some true => (st, idx ++ " member")
@@ -310,8 +410,8 @@ def step (st : St) (ws : List String) : St × String :=
   | name :: idx :: args =>
     match parseOp ((if name = "nregv" then "regv" else name) :: args) with
     | some (op, []) =>
-      let (reg', r) := st.reg.apply recheck op
-      ({ st with reg := reg' }, idx ++ " " ++ obs reg' r)
+      let (reg', o) := applyObs st.reg op
+      ({ st with reg := reg' }, idx ++ " " ++ o)
     | _ => (st, idx ++ " bad-op")
   | _ => (st, "bad-op")
 
